@@ -11,6 +11,8 @@ From Coq Require Import ZArith QArith Qabs List Bool String.
 From DV Require Import Model.PyPrims Gen.BitFns Gen.Consts Model.C05Model Model.C05Spec Model.C05Model2
      Model.C05GenPrims Model.C05GenPrims2 Model.C05GenPrims3 Model.C05Model3 Gen.SplitDist Gen.SplitDistTa
      Proofs.C05Lists Proofs.C05Laminar Proofs.C05GenTa Proofs.C05GenTa2.
+From DV Require Import Model.C05GenPrims4 Model.C05Model4 Gen.SplitDistDeco Model.C05Merge
+     Proofs.C05GenDeco Proofs.C05DecoProps Proofs.C05DecoModes Proofs.C05MergeProofs.
 Import ListNotations.
 Open Scope Z_scope.
 
@@ -153,3 +155,379 @@ Theorem gen_ta_consensus_tree_is_model :
   gen_ta_consensus_tree c a all bits mf b o = Ok (ta_consensus a all bits mf).
 Proof. exact gen_ta_consensus_tree_eq. Qed.
 Print Assumptions gen_ta_consensus_tree_is_model.
+
+(* ====================================================================================== *)
+(* wave 6: SplitDistributionSummarizer.configure / _decorate / the decoration statements of
+   summarize_splits_on_tree (Gen/SplitDistDeco.v, regenerated from the AST on every run by
+   py/dv/gen_splitdist_deco.py, fail closed) and the set_edge_lengths modes.
+   Trusted: the primitives of Model/C05GenPrims4.v (setattr / annotations.drop / add_bound_attribute /
+   add_new on an object, "{}".format, the fixed-point format with its rounding round_half_even,
+   kwargs.pop, getattr on the summarizer, dict.get on a summary).  Floats are exact rationals. *)
+
+(* configure: the generated function is the model's record of options ... *)
+Theorem gen_configure_is_model : forall kw : skw, gen_configure kw = configure kw.
+Proof. exact gen_configure_eq. Qed.
+Print Assumptions gen_configure_is_model.
+
+(* ... and the DEFAULTS (no keyword given), read off the AST: no edge lengths set, support as
+   attribute AND annotation, no label, age / length summaries as attributes and annotations, 4 label
+   decimals, proportions not percentages, no compose function, the statistics field names, the
+   no-data values, every field written under its own name as a dynamically bound annotation, no
+   minimum edge length, negative edge lengths tolerated *)
+Theorem gen_configure_defaults :
+  let o := gen_configure skw_empty in
+  d_set_edge_lengths o = ELNone /\
+  d_add_support_as_node_attribute o = true /\ d_add_support_as_node_annotation o = true /\
+  d_set_support_as_node_label o = None /\
+  d_add_node_age_summaries_as_node_attributes o = true /\ d_add_node_age_summaries_as_node_annotations o = true /\
+  d_add_edge_length_summaries_as_edge_attributes o = true /\ d_add_edge_length_summaries_as_edge_annotations o = true /\
+  d_support_label_decimals o = 4 /\ d_support_as_percentages o = false /\ d_support_label_compose_fn o = None /\
+  d_summary_stats_fieldnames o = ["mean"; "median"; "sd"; "hpd95"; "quant_5_95"; "range"]%string /\
+  d_no_data_values o = [("hpd95", DEmptyList); ("quant_5_95", DEmptyList); ("range", DEmptyList)]%string /\
+  d_node_age_summaries_fieldnames o = ["age_mean"; "age_median"; "age_sd"; "age_hpd95"; "age_quant_5_95"; "age_range"]%string /\
+  d_edge_length_summaries_fieldnames o
+    = ["length_mean"; "length_median"; "length_sd"; "length_hpd95"; "length_quant_5_95"; "length_range"]%string /\
+  (forall f, In f (d_fieldnames o) ->
+             py_getattr_str o (py_format1 "{}_attr_name" f) = Ok f /\
+             py_getattr_str o (py_format1 "{}_annotation_name" f) = Ok f /\
+             py_getattr_truth o (py_format1 "is_{}_annotation_dynamic" f) = Ok true) /\
+  d_minimum_edge_length o = None /\ d_error_on_negative_edge_lengths o = false.
+Proof.
+  cbv zeta. repeat (split; [reflexivity|]). split; [|split; reflexivity].
+  intros f I. vm_compute in I.
+  repeat (destruct I as [<- | I]; [vm_compute; repeat split |]). contradiction.
+Qed.
+Print Assumptions gen_configure_defaults.
+
+(* _decorate: the names are looked up on the summarizer; set_attribute -> setattr(target, attr, value);
+   set_annotation -> every annotation of that name is dropped and ONE is added: bound to the attribute
+   when the attribute was set and the field is dynamic, else carrying the value; neither flag: nothing *)
+Theorem gen_decorate_is_model :
+  forall (o : dopts) (t : deco) (f : string) (v : dval) (sa sn : bool),
+  gen_decorate o t f v sa sn
+  = bind (py_getattr_str o (py_format1 "{}_attr_name" f)) (fun a =>
+    bind (py_getattr_str o (py_format1 "{}_annotation_name" f)) (fun n =>
+    if sa && sn
+    then bind (py_getattr_truth o (py_format1 "is_{}_annotation_dynamic" f)) (fun d =>
+         Ok (if d then py_add_bound_attribute (py_annotations_drop (py_setattr t a v) n) a n
+             else py_add_new (py_annotations_drop (py_setattr t a v) n) n v))
+    else Ok (if sa then py_setattr t a v
+             else if sn then py_add_new (py_annotations_drop t n) n v else t))).
+Proof.
+  intros. rewrite gen_decorate_eq. unfold decorate.
+  destruct (py_getattr_str o (py_format1 "{}_attr_name" f)) as [a| |]; cbn [bind]; try reflexivity.
+  destruct (py_getattr_str o (py_format1 "{}_annotation_name" f)) as [n| |]; cbn [bind]; try reflexivity.
+  destruct sa, sn; reflexivity.
+Qed.
+Print Assumptions gen_decorate_is_model.
+
+(* the decoration statements of summarize_splits_on_tree, EVERY option setting (custom names included):
+   value or error of the model Model/C05Model4.deco_tree; the distribution only gains its caches *)
+Theorem gen_decoration_view_is_model :
+  forall (c : config) (o : dopts) (x : sdx) (t : list dnode) (b : bool),
+  NoDup (map fst (counts (x_sd x))) -> NoDup (map fst (elens (x_sd x))) -> NoDup (map fst (nages (x_sd x))) ->
+  x_counted_for_summ x <> total (x_sd x) ->
+  match snd (deco_tree (x_sd x) o t) with
+  | Ok outs => exists x', gen_decoration_view c o x t b = Ok (x', outs) /\ x_sd x' = fst (deco_tree (x_sd x) o t)
+  | Err e => gen_decoration_view c o x t b = Err e
+  | OutOfFuel => False
+  end.
+Proof. exact gen_decoration_view_eq. Qed.
+Print Assumptions gen_decoration_view_is_model.
+
+(* THE PROPERTY on the generated code (default field names, every other option free): for every node
+   of the target tree, in preorder,
+     - sup = the exact (weighted) frequency of ITS split over the counted trees, x100 under
+       support_as_percentages;
+     - for EVERY attribute name k: the node object's attribute k afterwards is the age_<stat> value of
+       the split's summary when k is such a name, add_node_age_summaries_as_node_attributes is set and
+       some split has an age summary; DFloat sup when k = "support" and add_support_as_node_attribute;
+       otherwise WHAT IT WAS BEFORE (frame) - likewise the edge object with length_<stat>,
+       add_edge_length_summaries_as_edge_attributes; the edge never receives support / age_*, the
+       node never length_*;
+     - for EVERY annotation name k: the annotations called k afterwards are exactly one fresh
+       annotation (bound to the attribute when the attribute flag is set, else carrying the value)
+       when the corresponding *_annotation(s) flag asks for it, otherwise those that were there;
+     - node.label is the formatted support iff set_support_as_node_label is true, else untouched. *)
+Theorem gen_decorations_exact :
+  forall (c : config) (ts : list tree_in) (kw : skw) (x : sdx) (t : list dnode) (b : bool) (x' : sdx) (outs : list dnode),
+  kw_dyn kw = [] ->
+  x_sd x = count_trees c sd_empty ts ->
+  (forall t0, In t0 ts -> NoDup (splits_of t0)) ->
+  ignore_len c = false -> ignore_ages c = false ->
+  x_counted_for_summ x <> total (x_sd x) ->
+  gen_decoration_view c (gen_configure kw) x t b = Ok (x', outs) ->
+  let o := gen_configure kw in
+  let lsum := calc_summaries (elens (count_trees c sd_empty ts)) in
+  let asum := calc_summaries (nages (count_trees c sd_empty ts)) in
+  let stat := fun (prefix k : string) =>
+                find (fun st => String.eqb k (prefix ++ st)) ["mean"; "median"; "sd"; "hpd95"; "quant_5_95"; "range"]%string in
+  let fresh_annot := fun (f : string) (v : dval) (attr_set : bool) =>
+                       if attr_set then mkAnn f (Some f) None else mkAnn f None (Some v) in
+  let named := fun (k : string) (l : list annot) => filter (fun a => String.eqb (an_name a) k) l in
+  Forall2 (fun n n' =>
+     dn_split n' = dn_split n /\
+     exists sup : Q,
+       (sup == (if d_support_as_percentages o then 100 else 1) * exact_freq c ts (dn_split n))%Q /\
+       (forall k, sget k (dc_attrs (dn_node n')) =
+          match (if d_add_node_age_summaries_as_node_attributes o && nonempty asum then stat "age_"%string k else None) with
+          | Some st => Some (field_value asum (d_no_data_values o) (dn_split n) st)
+          | None => if d_add_support_as_node_attribute o && String.eqb k "support" then Some (DFloat sup)
+                    else sget k (dc_attrs (dn_node n))
+          end) /\
+       (forall k, named k (dc_annots (dn_node n')) =
+          match (if d_add_node_age_summaries_as_node_annotations o && nonempty asum then stat "age_"%string k else None) with
+          | Some st => [fresh_annot ("age_" ++ st)%string (field_value asum (d_no_data_values o) (dn_split n) st)
+                                    (d_add_node_age_summaries_as_node_attributes o)]
+          | None => if d_add_support_as_node_annotation o && String.eqb k "support"
+                    then [fresh_annot "support"%string (DFloat sup) (d_add_support_as_node_attribute o)]
+                    else named k (dc_annots (dn_node n))
+          end) /\
+       (forall k, sget k (dc_attrs (dn_edge n')) =
+          match (if d_add_edge_length_summaries_as_edge_attributes o && nonempty lsum then stat "length_"%string k else None) with
+          | Some st => Some (field_value lsum (d_no_data_values o) (dn_split n) st)
+          | None => sget k (dc_attrs (dn_edge n))
+          end) /\
+       (forall k, named k (dc_annots (dn_edge n')) =
+          match (if d_add_edge_length_summaries_as_edge_annotations o && nonempty lsum then stat "length_"%string k else None) with
+          | Some st => [fresh_annot ("length_" ++ st)%string (field_value lsum (d_no_data_values o) (dn_split n) st)
+                                    (d_add_edge_length_summaries_as_edge_attributes o)]
+          | None => named k (dc_annots (dn_edge n))
+          end) /\
+       (truthy (d_set_support_as_node_label o) = false -> dn_label n' = dn_label n) /\
+       (truthy (d_set_support_as_node_label o) = true ->
+        exists l, dn_label n' = Some l /\
+                  match d_support_label_compose_fn o with
+                  | Some _ => l = LComposed sup
+                  | None => exists txt, l = LStr txt /\ py_format_fixed sup (d_support_label_decimals o) = Ok txt
+                  end))
+    t outs.
+Proof.
+  intros c ts kw x t b x' outs E Ex ND IL IA NE G.
+  pose proof (gen_decorations_exact_l c ts kw x t b x' outs E Ex ND IL IA NE G) as F. cbv zeta in F |- *.
+  eapply Forall2_imp; [|exact F]. intros n n' [H1 [sup [H2 [H3 [H4 [H5 [H6 [H7 H8]]]]]]]].
+  split; [exact H1|]. exists sup. repeat (split; [assumption|]).
+  intro T. destruct (H8 T) as [l [L1 L2]]. exists l. split; [exact L2|].
+  unfold label_of, py_label_format in L1. destruct (d_support_label_compose_fn (gen_configure kw)).
+  - now inversion L1.
+  - destruct (py_format_fixed sup (d_support_label_decimals (gen_configure kw))) as [txt| |]; inversion L1. now exists txt.
+Qed.
+Print Assumptions gen_decorations_exact.
+
+(* hypotheses satisfiable and the statement not vacuous: three rooted trees, defaults, labels with 2 decimals *)
+Example gen_decoration_view_example :
+  exists x' outs, gen_decoration_view ex_cfg (gen_configure ex_kw) ex_x ex_target false = Ok (x', outs) /\
+    map dn_label outs = [Some (LStr "1.00"); Some (LStr "0.67"); Some (LStr "1.00"); Some (LStr "1.00"); Some (LStr "1.00")] /\
+    map (fun n => sget "support" (dc_attrs (dn_node n))) outs
+      = [Some (DFloat 1); Some (DFloat (2 # 3)); Some (DFloat 1); Some (DFloat 1); Some (DFloat 1)] /\
+    map (fun n => sget "length_mean" (dc_attrs (dn_edge n))) outs
+      = [Some (DFloat 0); Some (DFloat 1); Some (DFloat 1); Some (DFloat (4 # 3)); Some (DFloat (5 # 3))].
+Proof. exact ex_decoration_view. Qed.
+
+(* the label format: fixed point with `places` digits, the scaled absolute value rounded HALF-EVEN
+   (round_half_even n: |n - x| <= 1/2 and n is even at a tie); negative places raise ValueError *)
+Theorem label_format_rounding :
+  (forall (x : Q) (p : Z), 0 <= p ->
+     py_format_fixed x p = Ok (fixed_string (Qle_bool 0 x) (round_half_even (Qabs x * inject_Z (10 ^ p))%Q) p)) /\
+  (forall (x : Q) (p : Z), p < 0 -> py_format_fixed x p = Err ValueErr) /\
+  (forall x : Q, let n := round_half_even x in
+     2 * Z.abs (n * Zpos (Qden x) - Qnum x) <= Zpos (Qden x) /\
+     (2 * Z.abs (n * Zpos (Qden x) - Qnum x) = Zpos (Qden x) -> Z.even n = true)).
+Proof.
+  split; [|split].
+  - intros x p H. unfold py_format_fixed. apply Z.ltb_ge in H. now rewrite H.
+  - intros x p H. unfold py_format_fixed. apply Z.ltb_lt in H. now rewrite H.
+  - exact round_half_even_spec.
+Qed.
+Print Assumptions label_format_rounding.
+
+(* the values behind length_<stat> / age_<stat>: statistics.summarize of the lengths (ages) recorded
+   for the split over EXACTLY the trees containing it, in counting order (summarize_exact / median_exact
+   of Props/C05.v say what mean, variance, median and range of that list are) *)
+Theorem gen_decoration_length_values : forall (c : config) (ts : list tree_in) (s : Z) (xs : list Q),
+  ignore_len c = false ->
+  all_some (values_of (rec_len c) s ts) = Some xs -> xs <> [] ->
+  exists sm, summarize xs = Ok sm /\
+    forall nodata,
+      let fv := field_value (calc_summaries (elens (count_trees c sd_empty ts))) nodata s in
+      fv "mean"%string = DFloat (s_mean sm) /\ fv "median"%string = DFloat (s_median sm) /\
+      fv "sd"%string = DSqrt (s_var sm) /\ fv "range"%string = DPair (s_min sm) (s_max sm) /\
+      fv "hpd95"%string = DOpaque "hpd95" /\ fv "quant_5_95"%string = DOpaque "quant_5_95".
+Proof. exact deco_length_values_l. Qed.
+Print Assumptions gen_decoration_length_values.
+
+Theorem gen_decoration_age_values : forall (c : config) (ts : list tree_in) (s : Z) (xs : list Q),
+  ignore_ages c = false ->
+  all_some (values_of r_age s ts) = Some xs -> xs <> [] ->
+  exists sm, summarize xs = Ok sm /\
+    forall nodata,
+      let fv := field_value (calc_summaries (nages (count_trees c sd_empty ts))) nodata s in
+      fv "mean"%string = DFloat (s_mean sm) /\ fv "median"%string = DFloat (s_median sm) /\
+      fv "sd"%string = DSqrt (s_var sm) /\ fv "range"%string = DPair (s_min sm) (s_max sm) /\
+      fv "hpd95"%string = DOpaque "hpd95" /\ fv "quant_5_95"%string = DOpaque "quant_5_95".
+Proof. exact deco_age_values_l. Qed.
+Print Assumptions gen_decoration_age_values.
+
+(* a split no counted tree contains gets the no-data values: 0.0 for mean / median / sd, [] for the rest *)
+Theorem gen_decoration_no_data_values : forall (c : config) (ts : list tree_in) (s : Z) (kw : skw),
+  ignore_len c = false -> values_of (rec_len c) s ts = [] ->
+  let fv := field_value (calc_summaries (elens (count_trees c sd_empty ts))) (d_no_data_values (gen_configure kw)) s in
+  fv "mean"%string = DFloat 0 /\ fv "median"%string = DFloat 0 /\ fv "sd"%string = DFloat 0 /\
+  fv "range"%string = DEmptyList /\ fv "hpd95"%string = DEmptyList /\ fv "quant_5_95"%string = DEmptyList.
+Proof. exact deco_no_data_values_l. Qed.
+Print Assumptions gen_decoration_no_data_values.
+
+(* set_edge_lengths, the non-age modes, on the generated summarize_splits_on_tree of Gen/SplitDist.v: per
+   node, None / "keep" leave the length, "clear" removes it, "support" writes the support,
+   "mean-length" / "median-length" the mean / median of the split's LENGTH summary (0.0 without one),
+   each raised to minimum_edge_length; node.age is never written *)
+Theorem gen_set_edge_lengths_nonage :
+  forall (c : config) (o : sopts) (x : sdx) (t : stree) (b : bool) (x' : sdx) (outs : list nodev),
+  NoDup (map fst (counts (x_sd x))) -> NoDup (map fst (elens (x_sd x))) -> NoDup (map fst (nages (x_sd x))) ->
+  x_counted_for_summ x <> total (x_sd x) ->
+  is_age_mode (o_mode o) = false ->
+  gen_summarize_splits_on_tree c o x t b = Ok (x', outs) ->
+  let lsum := calc_summaries (elens (x_sd x)) in
+  Forall2 (fun node v =>
+     nv_split v = sn_split node /\ nv_age v = None /\
+     nv_len v = match o_mode o with
+                | ELNone | ELKeep => sn_len node
+                | ELClear => None
+                | ELSupport => Some (clamp_min (o_min_len o) (support_of (snd (get_freqs (x_sd x))) o (sn_split node)))
+                | ELMeanLen => Some (clamp_min (o_min_len o)
+                                       (match aget (sn_split node) lsum with Some sm => s_mean sm | None => 0%Q end))
+                | ELMedianLen => Some (clamp_min (o_min_len o)
+                                         (match aget (sn_split node) lsum with Some sm => s_median sm | None => 0%Q end))
+                | ELMeanAge | ELMedianAge => sn_len node
+                end)
+    (st_preorder t) outs.
+Proof. exact gen_lengths_nonage_l. Qed.
+Print Assumptions gen_set_edge_lengths_nonage.
+
+(* "mean-age" / "median-age": every node gets node.age = mean / median of the split's AGE summary (not of
+   its lengths), every non-seed node the length parent.age - node.age raised to minimum_edge_length
+   (st_pre_pa pairs each node in preorder with its parent's split) *)
+Theorem gen_set_edge_lengths_age :
+  forall (c : config) (o : sopts) (x : sdx) (t : stree) (b : bool) (x' : sdx) (outs : list nodev),
+  NoDup (map fst (counts (x_sd x))) -> NoDup (map fst (elens (x_sd x))) -> NoDup (map fst (nages (x_sd x))) ->
+  x_counted_for_summ x <> total (x_sd x) ->
+  is_age_mode (o_mode o) = true ->
+  gen_summarize_splits_on_tree c o x t b = Ok (x', outs) ->
+  let asum := calc_summaries (nages (x_sd x)) in
+  let age := fun s : Z => match o_mode o with
+                          | ELMedianAge => match aget s asum with Some sm => s_median sm | None => 0%Q end
+                          | _ => match aget s asum with Some sm => s_mean sm | None => 0%Q end
+                          end in
+  Forall2 (fun pn v =>
+     nv_split v = sn_split (snd pn) /\
+     nv_age v = Some (age (sn_split (snd pn))) /\
+     nv_len v = match fst pn with
+                | None => sn_len (snd pn)
+                | Some p => Some (clamp_min (o_min_len o) (qminus (age p) (age (sn_split (snd pn)))))
+                end)
+    (st_pre_pa None t) outs.
+Proof. exact gen_lengths_age_l. Qed.
+Print Assumptions gen_set_edge_lengths_age.
+
+(* ====================================================================================== *)
+(* wave 6: merging collections.  Model/C05Merge.v: the per-split lists of split_edge_lengths /
+   split_node_ages are OBJECTS in a heap; a distribution maps a split to the identity of its list.
+   own me b t: the dict (distribution me, attribute b) has one entry per key and every entry holds the
+   list that entry created. *)
+
+(* SplitDistribution.update between two different distributions whose dicts own their lists: the
+   target becomes C05Model.update of the abstractions; of the SOURCE every count, total, rooting
+   set and cache field is unchanged and its two list tables only gain keys with EMPTY lists (the
+   defaultdict read); every object of every third distribution is untouched *)
+Theorem merge_update_refines :
+  forall (hp : heap) (d o : hsd) (hp' : heap) (d' o' : hsd),
+  h_self d <> h_self o ->
+  own (h_self d) true (h_elens d) /\ own (h_self d) false (h_nages d) ->
+  own (h_self o) true (h_elens o) /\ own (h_self o) false (h_nages o) ->
+  hupdate hp d o = (hp', d', o') ->
+  abs hp' d' = update (abs hp d) (abs hp o) /\
+  (total (abs hp' o') = total (abs hp o) /\ sum_w (abs hp' o') = sum_w (abs hp o) /\
+   rootings (abs hp' o') = rootings (abs hp o) /\ counts (abs hp' o') = counts (abs hp o) /\
+   freqs (abs hp' o') = freqs (abs hp o) /\ counted_for_freqs (abs hp' o') = counted_for_freqs (abs hp o) /\
+   (exists extra, elens (abs hp' o') = elens (abs hp o) ++ extra /\ Forall (fun kv => snd kv = []) extra) /\
+   (exists extra, nages (abs hp' o') = nages (abs hp o) ++ extra /\ Forall (fun kv => snd kv = []) extra)) /\
+  (own (h_self d') true (h_elens d') /\ own (h_self d') false (h_nages d')) /\
+  (own (h_self o') true (h_elens o') /\ own (h_self o') false (h_nages o')) /\
+  h_self d' = h_self d /\ h_self o' = h_self o /\
+  (forall x : oid, fst (fst x) <> h_self d -> fst (fst x) <> h_self o -> hp' x = hp x).
+Proof. exact hupdate_refines. Qed.
+Print Assumptions merge_update_refines.
+
+(* what that means for everything one can READ off the source: the frequency table, both summary
+   tables and every per-split list are literally the same *)
+Theorem merge_source_observables : forall a b : sd,
+  (total b = total a /\ sum_w b = sum_w a /\ rootings b = rootings a /\ counts b = counts a /\
+   freqs b = freqs a /\ counted_for_freqs b = counted_for_freqs a /\
+   (exists extra, elens b = elens a ++ extra /\ Forall (fun kv => snd kv = []) extra) /\
+   (exists extra, nages b = nages a ++ extra /\ Forall (fun kv => snd kv = []) extra)) ->
+  snd (get_freqs b) = snd (get_freqs a) /\
+  calc_summaries (elens b) = calc_summaries (elens a) /\
+  calc_summaries (nages b) = calc_summaries (nages a) /\
+  (forall s, aget_d s [] (elens b) = aget_d s [] (elens a)) /\
+  (forall s, aget_d s [] (nages b) = aget_d s [] (nages a)).
+Proof. intros a b H. exact (proj2 (src_same_observables a b H)). Qed.
+Print Assumptions merge_source_observables.
+
+(* any history of new distributions / count_splits_on_tree / update between different
+   distributions keeps the ownership invariant (no list is ever shared), and each operation acts on
+   the abstractions as the functional model: counting touches only its distribution, an update
+   changes only its target (and nothing observable of its source) *)
+Theorem merge_history_step : forall (c : config) (w : mworld) (op : mop),
+  (forall i d, nth_error (mw_dists w) i = Some d ->
+               h_self d = i /\ own (h_self d) true (h_elens d) /\ own (h_self d) false (h_nages d)) ->
+  let w' := mstep c w op in
+  (forall i d, nth_error (mw_dists w') i = Some d ->
+               h_self d = i /\ own (h_self d) true (h_elens d) /\ own (h_self d) false (h_nages d)) /\
+  match op with
+  | MNew => mabs w' (List.length (mw_dists w)) = sd_empty /\
+            forall k, (k < List.length (mw_dists w))%nat -> mabs w' k = mabs w k
+  | MCount i t => (i < List.length (mw_dists w))%nat ->
+                  mabs w' i = fst (count_tree c (mabs w i) t) /\ forall k, k <> i -> mabs w' k = mabs w k
+  | MUpdate i j => i <> j -> (i < List.length (mw_dists w))%nat -> (j < List.length (mw_dists w))%nat ->
+                   mabs w' i = update (mabs w i) (mabs w j) /\
+                   src_same (mabs w j) (mabs w' j) /\
+                   forall k, k <> i -> k <> j -> mabs w' k = mabs w k
+  end.
+Proof. exact mstep_spec. Qed.
+Print Assumptions merge_history_step.
+
+Theorem merge_history_invariant : forall (c : config) (ops : list mop) (i : nat) (d : hsd),
+  nth_error (mw_dists (mrun c mw_empty ops)) i = Some d ->
+  h_self d = i /\ own (h_self d) true (h_elens d) /\ own (h_self d) false (h_nages d).
+Proof. intros c ops. exact (mrun_wok c ops mw_empty wok_empty). Qed.
+Print Assumptions merge_history_invariant.
+
+(* merge = collecting all trees into a fresh distribution: a distribution updated from the
+   distributions of ts1 and of ts2 has the tree count, the weight sum, every frequency and - per
+   split - the very list of edge lengths / node ages (hence every summary) of a fresh distribution
+   that counted ts1 ++ ts2 *)
+Theorem merge_equals_fresh : forall (c : config) (ts1 ts2 : list tree_in),
+  (forall t, In t (ts1 ++ ts2) -> NoDup (splits_of t)) ->
+  let u := update (update sd_empty (count_trees c sd_empty ts1)) (count_trees c sd_empty ts2) in
+  let f := count_trees c sd_empty (ts1 ++ ts2) in
+  total u = total f /\ (sum_w u == sum_w f)%Q /\
+  (forall s, (snd (query u s) == exact_freq c (ts1 ++ ts2) s)%Q) /\
+  (forall s, (snd (query f s) == exact_freq c (ts1 ++ ts2) s)%Q) /\
+  (ignore_len c = false -> forall s, aget_d s [] (elens u) = aget_d s [] (elens f)) /\
+  (ignore_ages c = false -> forall s, aget_d s [] (nages u) = aget_d s [] (nages f)).
+Proof. exact merge_equals_fresh_l. Qed.
+Print Assumptions merge_equals_fresh.
+
+(* a concrete history: two collections merged into a third, one more tree counted into the result:
+   the sources' digests (frequencies, both summary tables) before = after, and the result's digest is
+   that of a fresh collection of all four trees *)
+Example merge_history_example :
+  let ops1 := [MNew; MCount 0 ex_t1; MCount 0 ex_t1; MNew; MCount 1 ex_t2] in
+  let w1 := mrun ex_cfg mw_empty ops1 in
+  let w := mrun ex_cfg w1 [MNew; MUpdate 2 0; MUpdate 2 1; MCount 2 ex_t2;
+                           MNew; MCount 3 ex_t1; MCount 3 ex_t1; MCount 3 ex_t2; MCount 3 ex_t2] in
+  digest_close (digest_of (mabs w 0)) (digest_of (mabs w1 0)) = true /\
+  digest_close (digest_of (mabs w 1)) (digest_of (mabs w1 1)) = true /\
+  digest_close (digest_of (mabs w 2)) (digest_of (mabs w 3)) = true /\
+  List.length (dg_len (digest_of (mabs w 2))) = 6%nat.
+Proof. vm_compute. repeat split. Qed.
